@@ -936,7 +936,11 @@ func init() {
 				s.Divergent++
 				names := []string{}
 				for _, o := range ops[:r.Div.Step+1] {
-					names = append(names, o.Op)
+					if o.G != 0 && o.G == o.H {
+						names = append(names, o.Op+"@self")
+					} else {
+						names = append(names, o.Op)
+					}
 				}
 				key := strings.Join(r.Div.Classes, "+") + "/" + strings.Join(names, ",")
 				kept[key]++
